@@ -14,7 +14,8 @@ Inductive qres :=
 | QErr.
 
 (* strat: 0 select, 1 select_with_limit, 2 select_columnar, 3 select_iter (lim 0 = none),
-          4 count, 6 min, 7 max, 8 text (QueryRouter::execute_parsed "SELECT * FROM t WHERE ...") *)
+          4 count, 6 min, 7 max, 8 text (QueryRouter::execute_parsed "SELECT * FROM t WHERE ..."),
+          10 count_column *)
 Inductive step :=
 | SInsert (vals : list value) (ret : option N) (post : dump)
 | SUpdate (c : cond) (sets : list (N * value)) (touched : list N) (ret : option N) (post : dump)
@@ -46,6 +47,7 @@ Definition demanded (prev : dump) (strat : N) (lim off col : N) (expected : list
   else if strat =? 3 then QRows (if lim =? 0 then skipn (N.to_nat off) rows
                                  else firstn (N.to_nat lim) (skipn (N.to_nat off) rows))
   else if strat =? 4 then QCount (N.of_nat (length rows))
+  else if strat =? 10 then QCount (N.of_nat (length (filter (non_null_at col) rows)))
   else if strat =? 6 then QVal (agg_best Lt col rows)
   else QVal (agg_best Gt col rows).
 
@@ -82,6 +84,7 @@ Definition model_query (st : state) (strat : N) (c : cond) (lim off col : N) : q
   else if (strat =? 2) || (strat =? 8) then QRows (select_columnar norm st c)
   else if strat =? 3 then QRows (select_iter norm st c lim off)
   else if strat =? 4 then QCount (count norm st c)
+  else if strat =? 10 then QCount (count_column norm st c col)
   else if strat =? 6 then QVal (agg_min norm st c col)
   else QVal (agg_max norm st c col).
 
